@@ -312,6 +312,10 @@ func (c *Context) HandleEnvelop(envelop vivid.Envelop) {
 		// 而对已终止 Actor 的 Kill/Watch 等系统消息会作用在根 Actor 上，例如终止整个系统）。
 		if receiver, ok := envelop.Receiver().(*Ref); ok && receiver != nil && !receiver.Equals(c.ref) {
 			killingOrKilled = true
+		} else if _, isDeathLetter := envelop.Message().(ves.DeathLetterEvent); isDeathLetter && currentState == killing {
+			// 系统停止过程中（根 Actor 处于 killing）到达的死信仍由根 Actor 正常处理（发布到事件流）；
+			// 死信本身是普通消息，若按“非运行状态的普通消息”再次包装为死信投回自身，会在根 Actor 终止前不断循环并层层嵌套
+			killingOrKilled = false
 		}
 	}
 	if killingOrKilled && currentState == killing && c.restarting != nil {
